@@ -8,7 +8,7 @@ THEOREMS = ['C10_cyclepoints', 'C10_argext', 'C10_midpoints', 'C10_shape', 'C10_
 RULE = ("generated signals of all families x option sets of C01 x both burst methods x both centrings; (a) amplitude: compute_features(a*x) against compute_features(x) for "
         "a = 2^k, k in [-40, 40] (exact in float64; a quarter of the cases on int16 / int32 / int64 signals with k in [1, 4]): every sample index, duration, symmetry, consistency, monotonicity, amplitude fraction, burst fraction and label equal, "
         "every voltage feature and band_amp multiplied by a exactly; (b) rate: compute_features(x, c*fs, c*f_range) against compute_features(x, fs, f_range) for c = 2^k, "
-        "k in [-3, 6] and, for 40% of the rate cases, the one or two halvings that make c*fs fractional ( runs that the neurodsp filter validation refuses for its absolute-frequency limits are counted as kernel-refused), filter length in cycles: identical tables; distinct = distinct (signal, options, factor); non-trivial = >= 3 cycles and factor != 1")
+        "k in [-3, 6] and, for 40% of the rate cases, the one or two halvings that make c*fs fractional ( runs that the neurodsp filter validation refuses for its absolute-frequency limits are counted as kernel-refused), filter length in cycles: identical tables; one case in four also through ONE Bycycle object fitted before and after the rescaling (the array rescaled in place / the rate and band changed, settings untouched); distinct = distinct (signal, options, factor); non-trivial = >= 3 cycles and factor != 1")
 ASSUMPTIONS = ["exact commutation of float64 arithmetic with power-of-two factors is a runtime fact observed on the implementation (no overflow / subnormals in the tested range)",
                "homogeneity of the neurodsp kernels (filter linear, amp_by_time homogeneous, dual threshold scale free, dependence on fs and f only through ratios) is E5: assumed in the theorems, observed here"]
 BATCH = 50
@@ -41,7 +41,7 @@ def generate(ctx):
         cases.append(dict(kind=kind, k=k, sig=proto.arr2hex(s['sig']), fs=s['fs'], f_range=list(s['f_range']),
                           n_cycles=(None if rng.random() < 0.5 else int(rng.choice([2, 3, 4]))),
                           boundary=(None if rng.random() < 0.5 else int(rng.choice([0, 5, 30]))),
-                          center=str(rng.choice(['peak', 'trough'])), method=method, th=th, family=s['family'], pres=implutil.pick_presentation(rng, 0.3), reuse=bool(rng.random() < 0.25)))
+                          center=str(rng.choice(['peak', 'trough'])), method=method, th=th, family=s['family'], pres=implutil.pick_presentation(rng, 0.3), reuse=bool(rng.random() < 0.25), obj=bool(i % 4 == 1)))
         if kind == 'amp' and rng.random() < 0.25:      # integer-typed recordings (ADC counts): factor 2^k, k in 1..4, stays in range
             cases[-1].update(dtype=str(rng.choice(['int16', 'int32', 'int64', '>i2', '>i4', '<u2', '>u2'])), k=int(rng.integers(1, 5)))     # (byte-swapped recordings included)
     return cases
@@ -95,7 +95,26 @@ def evaluate(ctx, cases):
             continue
         a, b = res
         ok = True
-        if len(a) != len(b) or list(a.columns) != list(b.columns):
+        if c.get('obj') and not c.get('dtype'):
+            # the same pair through ONE Bycycle object: fitted on a buffer holding x, the buffer is rescaled IN PLACE (amplitude) or the rate and band
+            # are changed (rate), and the object is fitted again with unchanged settings: the second table must be the functional one
+            try:
+                from bycycle import Bycycle
+                th, fek, bk = _objs['v']
+                bm = implutil.quiet(Bycycle, center_extrema=c['center'], burst_method=c['method'], burst_kwargs=bk, thresholds=th, find_extrema_kwargs=fek)
+                buf = np.array(x, dtype=float)
+                implutil.quiet(bm.fit, buf, fs, fr)
+                if c['kind'] == 'amp':
+                    buf *= f; implutil.quiet(bm.fit, buf, fs, fr)
+                else:
+                    implutil.quiet(bm.fit, buf, fs * f, (fr[0] * f, fr[1] * f))
+                if not bm.df_features.equals(b):
+                    ok = False; info['judge'] = 'one Bycycle object fitted before and after the rescaling: the second table is not compute_features of the rescaled input'
+            except Exception as e:
+                ok = False; info['judge'] = 'Bycycle object route raised %s: %s' % (type(e).__name__, str(e)[:80])
+        if not ok:
+            pass
+        elif len(a) != len(b) or list(a.columns) != list(b.columns):
             ok = False; info['judge'] = 'tables differ in shape: %d vs %d rows' % (len(a), len(b))
         else:
             for col in a.columns:
